@@ -88,9 +88,11 @@ V('optab-mdd-xor', 'C15', 'breaking',
   "R-OPTAB/alias/dd.mdd.MDD.apply", 'MDD xor computed as equiv')
 V('optab-cudd-implies', 'C19', 'breaking',
   [('dd/cudd.pyx', """            r = Cudd_bddIte(
-                mgr, u.node, v.node, Cudd_ReadOne(mgr))
+                mgr, u.node, v.node,
+                Cudd_ReadOne(mgr))
         elif op in ('<=>', '<->', 'equiv'):""", """            r = Cudd_bddIte(
-                mgr, v.node, u.node, Cudd_ReadOne(mgr))
+                mgr, v.node, u.node,
+                Cudd_ReadOne(mgr))
         elif op in ('<=>', '<->', 'equiv'):""")],
   "R-OPTAB/alias/dd.cudd.BDD.apply", 'cudd implies reversed')
 
@@ -1168,3 +1170,99 @@ V('grammar-benign-new-alias', 'C05', 'benign',
         | \\*
         \"\"\"""")],
   None, 'an extra spelling of AND')
+
+# ------------------------------------------------------------------ R-CYTS
+Z = 'dd/cudd_zdd.pyx'
+V('cyts-forall-leak-on-null', 'C19', 'breaking',
+  [(Z, """    q = _forall(mgr, level + 1, w, new_cube)
+    if q is NULL:
+        Cudd_RecursiveDerefZdd(mgr, p)
+        return NULL""", """    q = _forall(mgr, level + 1, w, new_cube)
+    if q is NULL:
+        return NULL""")],
+  'R-CYTS/leak/dd.cudd_zdd._forall', 'p leaks when the second recursion fails')
+V('cyts-disjoin-no-final-deref', 'C19', 'breaking',
+  [(Z, """    cuddCacheInsert2(
+        mgr, _disjoin_cache_id, u, v, r)
+    cuddDeref(r)
+    return r""", """    cuddCacheInsert2(
+        mgr, _disjoin_cache_id, u, v, r)
+    return r""")],
+  'R-CYTS/leak/dd.cudd_zdd._disjoin', 'result returned with an extra count')
+V('cyts-forall-conj', 'C19', 'breaking',
+  [(Z, """        r = _find_or_add(mgr, index, conj, conj)
+        Cudd_RecursiveDerefZdd(mgr, conj)""", """        r = _find_or_add(mgr, index, conj, conj)""")],
+  'R-CYTS/leak/dd.cudd_zdd._forall', 'conj never released')
+V('cyts-double-deref', 'C19', 'breaking',
+  [(Z, """    if r is NULL:
+        Cudd_RecursiveDerefZdd(mgr, p)
+        Cudd_RecursiveDerefZdd(mgr, q)
+        return NULL
+    cuddRef(r)
+    Cudd_RecursiveDerefZdd(mgr, p)
+    Cudd_RecursiveDerefZdd(mgr, q)
+    cuddCacheInsert2(
+        mgr, _disjoin_cache_id, u, v, r)""", """    if r is NULL:
+        Cudd_RecursiveDerefZdd(mgr, p)
+        Cudd_RecursiveDerefZdd(mgr, q)
+        return NULL
+    cuddRef(r)
+    Cudd_RecursiveDerefZdd(mgr, p)
+    Cudd_RecursiveDerefZdd(mgr, q)
+    Cudd_RecursiveDerefZdd(mgr, q)
+    cuddCacheInsert2(
+        mgr, _disjoin_cache_id, u, v, r)""")],
+  'R-CYTS/over-release/dd.cudd_zdd._disjoin', 'q released twice')
+V('cyts-compose-root-table', 'C19', 'breaking',
+  [(Z, """        for nd in table.values():
+            Cudd_RecursiveDerefZdd(mgr,
+                <DdRef><stdint.uintptr_t>nd)
+""", "")],
+  'R-CYTS/collection/dd.cudd_zdd._compose_root', 'memo table nodes never released')
+V('cyts-dddmp-no-deref', 'C19', 'breaking',
+  [('dd/cudd.pyx', """        h = wrap(self, r)
+        # `Dddmp_cuddBddArrayLoad` references `r`
+        Cudd_RecursiveDeref(self.manager, r)""", """        h = wrap(self, r)""")],
+  'R-CYTS/leak/dd.cudd.BDD._load_dddmp', 'loaded root keeps the loader reference')
+V('cyts-init-no-ref', 'C19', 'breaking',
+  [('dd/cudd.pyx', """            # The user is responsible for
+            # implementing this invariant.
+        Cudd_Ref(node)
+
+    def __hash__(""", """            # The user is responsible for
+            # implementing this invariant.
+
+    def __hash__(""")],
+  'R-CYTS/handle-acquire/dd.cudd.Function.init', 'handle without a reference')
+V('cyts-dealloc-double', 'C19', 'breaking',
+  [('dd/sylvan.pyx', """        sy.sylvan_deref(self.node)
+        self.node = 0""", """        sy.sylvan_deref(self.node)
+        sy.sylvan_deref(self.node)
+        self.node = 0""")],
+  'R-CYTS/handle-release/dd.sylvan.Function.__dealloc__', 'two releases per handle')
+V('cyts-benign-reorder-derefs', 'C19', 'benign',
+  [(Z, """    cuddRef(r)
+    Cudd_RecursiveDerefZdd(mgr, p)
+    Cudd_RecursiveDerefZdd(mgr, q)
+    cuddCacheInsert2(
+        mgr, _disjoin_cache_id, u, v, r)""", """    cuddRef(r)
+    Cudd_RecursiveDerefZdd(mgr, q)
+    Cudd_RecursiveDerefZdd(mgr, p)
+    cuddCacheInsert2(
+        mgr, _disjoin_cache_id, u, v, r)""")],
+  None, 'release order exchanged')
+V('optab-zdd-xor', 'C19', 'breaking',
+  [(Z, """            r = Cudd_zddIte(mgr, u.node, neg.node, v.node)""", """            r = Cudd_zddIte(mgr, u.node, v.node, neg.node)""")],
+  'R-OPTAB/alias/dd.cudd_zdd.ZDD.apply', 'ZDD xor computed as equiv')
+V('optab-sylvan-quant-swapped', 'C19', 'breaking',
+  [('dd/sylvan.pyx', "r = sy.sylvan_forall(v.node, u.node)", "r = sy.sylvan_forall(u.node, v.node)")],
+  'R-OPTAB/alias/dd.sylvan.BDD.apply', 'F2 reintroduced')
+V('optab-cudd-univ-swapped', 'C19', 'breaking',
+  [('dd/cudd.pyx', "r = Cudd_bddUnivAbstract(\n                mgr, v.node, u.node)", "r = Cudd_bddUnivAbstract(\n                mgr, u.node, v.node)")],
+  'R-OPTAB/alias/dd.cudd.BDD.apply', 'cube and function exchanged')
+V('optab-buddy-or', 'C19', 'breaking',
+  [('dd/buddy.pyx', "            r = buddy.bdd_or(u.node, v.node)\n        elif op in ('#'", "            r = buddy.bdd_xor(u.node, v.node)\n        elif op in ('#'")],
+  'R-OPTAB/alias/dd.buddy.BDD.apply', 'buddy or computed as xor')
+V('optab-cudd-le', 'C19', 'breaking',
+  [('dd/cudd.pyx', "        return (other | ~ self) == self.bdd.true\n\n    def __lt__", "        return (self | ~ other) == self.bdd.true\n\n    def __lt__")],
+  'R-OPTAB/method/dd.cudd.Function.__le__', '<= reversed in cudd')
